@@ -1,6 +1,110 @@
-(* C11 — delete and retention.  Headline theorems only. *)
-From Pyro Require Import Model.Base Model.Tree Model.Segment Model.Timeline Model.Storage Proofs.StorageProofs.
+(* C11 — deleted data stays deleted; deletion and retention touch nothing else.
+   Headline theorems only; lemmas in Proofs/StorageProofs.v; model Model/Storage.v (after the fixes D3, D4).
+
+   [st_after pis] is the state after the ingests pis; [keep sel pi] = the upload's series does not match sel.
+   st_equiv st1 st2 := same series table and, under every tree key, the same stored tree or none.
+   Hypotheses: valid_put K (non-empty range inside the epoch block K, as everywhere for segments),
+   block_deletable K (the block lies before storage.maxTime = Unix 2^62, true for every real date),
+   key_consistent (equal key text = equal series, C15). *)
+From Pyro Require Import Model.Base Model.Tree Model.Segment Model.Timeline Model.Storage
+  Proofs.TreeProofs Proofs.SegStruct Proofs.StorageProofs.
+Local Open Scope Z_scope.
 
 Theorem C11_get_readonly : forall rt sel f u st, fst (st_step rt st (OpGet sel f u)) = st.
 Proof. exact st_get_readonly. Qed.
 Print Assumptions C11_get_readonly.
+
+(* every stored tree key of a live series is a node that the Delete walk of its segment reports (this is
+   what D4 violated before the fix: the walk stopped at the first present node) *)
+Theorem C11_keys_are_nodes : forall K pis, block_deletable K -> Forall (valid_put K) pis ->
+  forall ks l t tr, In ks (st_segs (st_after pis)) ->
+    tree_lookup (sid_key (fst ks), l, t) (st_trees (st_after pis)) = Some tr ->
+    cb_hits l t (del_cbs (snd ks)) = true.
+Proof. exact keys_are_nodes_after. Qed.
+Print Assumptions C11_keys_are_nodes.
+
+(* C11_delete: after Delete sel the state is the one in which the matching series were never ingested *)
+Theorem C11_delete_state : forall K sel pis, block_deletable K -> Forall (valid_put K) pis -> key_consistent pis ->
+  st_equiv (st_delete sel (st_after pis)) (st_after (filter (keep sel) pis)).
+Proof. exact delete_complete. Qed.
+Print Assumptions C11_delete_state.
+
+(* ... hence every later history (ingests — also into the deleted series —, queries with any selector and
+   range, further deletes, retention passes; retention on or off) produces exactly the outputs it produces
+   when the matching series never existed: matching series answer nothing, old samples never reappear,
+   non-matching series answer as before *)
+Theorem C11_delete : forall K sel pis rt ops, block_deletable K -> Forall (valid_put K) pis -> key_consistent pis ->
+  snd (st_run rt ops (st_delete sel (st_after pis))) = snd (st_run rt ops (st_after (filter (keep sel) pis))).
+Proof. exact delete_then_run. Qed.
+Print Assumptions C11_delete.
+
+Theorem C11_delete_no_trees : forall K sel pis, block_deletable K -> Forall (valid_put K) pis -> key_consistent pis ->
+  forall pi l t, In pi pis -> sel_matches sel (pi_sid pi) = true ->
+  tree_lookup (sid_key (pi_sid pi), l, t) (st_trees (st_delete sel (st_after pis))) = None /\
+  seg_lookup (pi_sid pi) (st_segs (st_delete sel (st_after pis))) = None.
+Proof. exact delete_no_trees. Qed.
+Print Assumptions C11_delete_no_trees.
+
+Theorem C11_delete_other_unchanged : forall K sel pis, block_deletable K -> Forall (valid_put K) pis -> key_consistent pis ->
+  forall pi, In pi pis -> sel_matches sel (pi_sid pi) = false ->
+  agree_on (sid_key (pi_sid pi)) (st_delete sel (st_after pis)) (st_after pis).
+Proof. exact delete_other_unchanged. Qed.
+Print Assumptions C11_delete_other_unchanged.
+
+(* observationally equivalent states cannot be told apart by any history of operations *)
+Theorem C11_equiv_run : forall rt ops st1 st2, st_equiv st1 st2 ->
+  st_equiv (fst (st_run rt ops st1)) (fst (st_run rt ops st2)) /\ snd (st_run rt ops st1) = snd (st_run rt ops st2).
+Proof. exact st_run_equiv. Qed.
+Print Assumptions C11_equiv_run.
+
+(* retention: an ingest that starts before now - retention is refused and stores nothing *)
+Theorem C11_retention_reject : forall thr pi st, pi_from pi < thr -> st_put (Some thr) pi st = (st, false).
+Proof. exact retention_reject. Qed.
+Print Assumptions C11_retention_reject.
+
+Theorem C11_retention_accept : forall thr pi st, thr <= pi_from pi -> st_put (Some thr) pi st = st_put None pi st.
+Proof. exact retention_accept. Qed.
+Print Assumptions C11_retention_accept.
+
+(* Not proved here (C11_retention of DESIGN.md: after a pass at T ranges starting at/after T unchanged,
+   ranges ending at/before T empty, no range returns more than before): these need invariants of
+   s_del_node on partially cut trees; they are covered by the correspondence check only (CorrC11). *)
+
+(* ---- non-vacuity (the D4 shape): foo gets [0,10) and [10,20) — its root bucket becomes aggregated —,
+   bar one upload; Delete foo; re-ingest foo [0,10) with another stack: the old stack p;q is gone ---- *)
+Definition ex_foo : sid := {| sid_key := [102;111;111;123;125]%N; sid_app := [102;111;111]%N; sid_tags := [] |}.
+Definition ex_bar : sid := {| sid_key := [98;97;114;123;125]%N; sid_app := [98;97;114]%N; sid_tags := [] |}.
+Definition ex_m : meta := {| m_spy := []; m_rate := 100%N; m_units := []; m_agg := [115;117;109]%N |}.
+Definition ex_put (s : sid) (f u : Z) (key : bytes) (v : N) : put_input :=
+  {| pi_sid := s; pi_from := f; pi_until := u; pi_tree := t_insert key v t_empty; pi_meta := ex_m |}.
+Definition ex_hist : list put_input :=
+  [ ex_put ex_foo 1600000000 1600000010 [112;59;113]%N 6%N; ex_put ex_foo 1600000010 1600000020 [112;59;113]%N 4%N;
+    ex_put ex_bar 1600000000 1600000010 [122]%N 3%N ].
+
+Example C11_delete_nonvacuous :
+  block_deletable 63 /\ Forall (valid_put 63) ex_hist /\ key_consistent ex_hist /\
+  length (st_trees (st_after ex_hist)) = 4%nat /\
+  length (st_trees (st_delete ex_foo (st_after ex_hist))) = 1%nat /\
+  st_get ex_foo 1600000000 1600000100 (st_delete ex_foo (st_after ex_hist)) = None /\
+  match st_get ex_foo 1600000000 1600000100
+          (fst (st_put None (ex_put ex_foo 1600000000 1600000010 [114]%N 5%N) (st_delete ex_foo (st_after ex_hist)))) with
+  | Some out => t_self_at [[112]%N; [113]%N] (go_tree out) = 0%N /\ t_self_at [[114]%N] (go_tree out) = 5%N
+  | None => False
+  end /\
+  match st_get ex_bar 1600000000 1600000100 (st_delete ex_foo (st_after ex_hist)) with
+  | Some out => t_self_at [[122]%N] (go_tree out) = 3%N
+  | None => False
+  end.
+Proof.
+  split; [vm_compute; discriminate|]. split.
+  { unfold ex_hist. repeat (apply Forall_cons; [apply valid_rangeb_ok; vm_compute; reflexivity|]). apply Forall_nil. }
+  split.
+  { intros pi pi' H1 H2. cbn in H1, H2.
+    destruct H1 as [<-|[<-|[<-|[]]]], H2 as [<-|[<-|[<-|[]]]]; cbn; intros E; try reflexivity; discriminate E. }
+  vm_compute. repeat split.
+Qed.
+
+Example C11_retention_reject_nonvacuous :
+  st_put (Some 1600000005) (ex_put ex_foo 1600000000 1600000010 [114]%N 5%N) (st_after ex_hist) = (st_after ex_hist, false) /\
+  snd (st_put (Some 1600000000) (ex_put ex_foo 1600000000 1600000010 [114]%N 5%N) (st_after ex_hist)) = true.
+Proof. split; vm_compute; reflexivity. Qed.
